@@ -8,3 +8,4 @@ import SquidModel.Properties.C54
 #print axioms SquidModel.C54.can_acquire_when_idle
 #print axioms SquidModel.C54.asserts_hold
 #print axioms SquidModel.C54.finalize_sees_not_appending
+#print axioms SquidModel.C54.executed_runs_are_reachable
